@@ -176,3 +176,6 @@ pub fn drive<F: Fn(&Case, &mut Out) + std::panic::RefUnwindSafe>(f: F) {
     }
     w.flush().unwrap();
 }
+
+/// shared ConfigState driver of C05 / C06 / C07
+pub mod cfgstate;
